@@ -77,6 +77,8 @@ func main() {
 		crashpoints(*seed, *n, *events, *out, *storage, *profile)
 	case "log":
 		logMode(*seed, *n, *out)
+	case "core":
+		coreMode(*seed, *n, *events, *out, *profile)
 	default:
 		fmt.Fprintln(os.Stderr, "unknown mode")
 		os.Exit(2)
@@ -292,4 +294,43 @@ func addStats(a *raftdrv.Stats, b raftdrv.Stats) {
 	a.CommitQuorumChecks += b.CommitQuorumChecks
 	a.HeartbeatsChecked += b.HeartbeatsChecked
 	a.AppendsChecked += b.AppendsChecked
+}
+
+// coreMode: generated schedules on MemoryStorage with the handler-level case sink on: writes
+// core-cases.tsv (the model's stdin) and core-impl.out, plus core-stats.json
+func coreMode(seed int64, n, events int, out, profile string) {
+	tmp, _ := os.MkdirTemp("", "raftcore")
+	defer os.RemoveAll(tmp)
+	cf, _ := os.Create(filepath.Join(out, "core-cases.tsv"))
+	of, _ := os.Create(filepath.Join(out, "core-impl.out"))
+	cw := bufio.NewWriterSize(cf, 1<<20)
+	ow := bufio.NewWriterSize(of, 1<<20)
+	agg := map[string]map[string]int{"emitted": {}, "skipped": {}, "msg_in": {}}
+	total := 0
+	for i := 0; i < n; i++ {
+		s, rng := raftdrv.PlanSchedule(seed, i, events, "mem", profile)
+		pre := fmt.Sprintf("c%d.", i)
+		stats := raftdrv.RunGeneratedCore(s, rng, filepath.Join(tmp, fmt.Sprint(i)), func(id, caseLine, implLine string) {
+			cw.WriteString(pre + caseLine + "\n")
+			ow.WriteString(pre + implLine + "\n")
+			total++
+		})
+		if stats != nil {
+			for k, v := range stats.Emitted {
+				agg["emitted"][k] += v
+			}
+			for k, v := range stats.Skipped {
+				agg["skipped"][k] += v
+			}
+			for k, v := range stats.MsgIn {
+				agg["msg_in"][fmt.Sprint(k)] += v
+			}
+		}
+	}
+	cw.Flush()
+	ow.Flush()
+	cf.Close()
+	of.Close()
+	writeJSON(filepath.Join(out, "core-stats.json"), agg)
+	fmt.Printf("core cases=%d stats=%v\n", total, agg)
 }
